@@ -47,6 +47,35 @@ func mkDesc(a absDesc, r *rand.Rand, viaDecode bool) scte35.SegmentationDescript
 		cmd.SetHasPTS(false)
 	}
 	d := scte35.CreateSegmentationDescriptor()
+	if r != nil && r.Intn(3) == 0 {
+		// a previous life: the descriptor had another type and has answered questions (closing relation both ways,
+		// equality, in/out) before it is given the type it is judged with - the relation depends on the type it has now
+		prev := []int{0x33, 0x35, 0x37, 0x31, 0x11, 0x21, 0x34, 0x36, 0x45, r.Intn(256)}[r.Intn(10)]
+		mkSig := func(x scte35.SegmentationDescriptor) scte35.SCTE35 {
+			ps := scte35.CreateSCTE35()
+			cmd := scte35.CreateTimeSignalCommand()
+			cmd.SetHasPTS(true)
+			ps.SetCommandInfo(cmd)
+			ps.SetPTS(gots.PTS(a.PTS))
+			ps.SetDescriptors([]scte35.SegmentationDescriptor{x})
+			return ps
+		}
+		d.SetTypeID(scte35.SegDescType(prev))
+		d.SetEventID(uint32(a.Eid))
+		ps := mkSig(d)
+		for _, ot := range []int{prev - 1, prev, prev + 1, r.Intn(256)} {
+			other := scte35.CreateSegmentationDescriptor()
+			other.SetTypeID(scte35.SegDescType(ot & 0xff))
+			other.SetEventID(uint32(a.Eid))
+			mkSig(other)
+			d.CanClose(other)
+			other.CanClose(d)
+			d.Equal(other)
+		}
+		d.IsIn()
+		d.IsOut()
+		ps.SetDescriptors(nil)
+	}
 	d.SetTypeID(scte35.SegDescType(a.Type))
 	d.SetEventID(uint32(a.Eid))
 	d.SetSegmentNumber(uint8(a.SegNum))
